@@ -15,11 +15,13 @@ SPECS["C27"] = dict(
             dict(name="c27_int64_small", bounds="<=3 fully symbolic bytes, base in {0,8,10,16}, allowSign in {0,1}, limit in [0,4]", reach=["ok", "fail"]),
             dict(name="c27_int64_boundary", bounds="sign in {none,-,+}, base in {8,10,16}: concrete prefix of INT64_MAX/base digits + 3 symbolic bytes", reach=["ok", "fail"]),
             dict(name="c27_offset", bounds="httpHeaderParseOffset: (a) <=3 symbolic bytes, (b) '[-]922337203685477580' + 2 symbolic bytes + NUL", reach=["ok", "fail"]),
+            dict(name="c27_int64_wrap", bounds="sign in {none,-}, base in {8,10,16}: numbers with one digit more than INT64_MAX has in the base: 2 symbolic leading bytes + zeros + 1 symbolic last byte (22/20/17 digits)", reach=["ok", "fail"]),
         ],
         thorough=[
             dict(name="c27_int64_small", bounds="<=4 fully symbolic bytes, base in {0,8,10,16}, allowSign in {0,1}, limit in [0,5]", reach=["ok", "fail"]),
             dict(name="c27_int64_boundary", bounds="sign in {none,-,+}, base in {8,10,16}: concrete prefix + 4 symbolic bytes", reach=["ok", "fail"]),
             dict(name="c27_offset", bounds="httpHeaderParseOffset: (a) <=4 symbolic bytes, (b) boundary prefix + 3 symbolic bytes", reach=["ok", "fail"]),
+            dict(name="c27_int64_wrap", bounds="as quick", reach=["ok", "fail"]),
         ]),
     timeout=dict(quick=240, thorough=1500),
     stubs=["libc strtoll/tolower/isdigit models (glibc semantics, C locale)", "debugs() disabled"],
